@@ -59,6 +59,7 @@ class SimWorld:
         self.monitor_violations = []
         self.notes = {}
         self.on_event = None     # f(kind, res_name, request id, now, data) for model-driven checks
+        self.release_of = {}     # id(request) -> Release event created for it
         self.events = {}         # manual events by name (C18)
         self.labels = {}         # id(event) -> member label (events pinned in self.pinned)
         self.pinned = []
@@ -92,6 +93,18 @@ class SimWorld:
                 raise ValueError(kind)
             self.res[name] = obj
             self.res_name[id(obj)] = name
+            if hasattr(obj, "release"):
+                self._capture_releases(obj)
+
+    def _capture_releases(self, resource):
+        """Remember the Release event Request.__exit__ creates and drops (public method only)."""
+        original = resource.release
+
+        def release(request):
+            event = original(request)
+            self.release_of[id(request)] = event
+            return event
+        resource.release = release
 
     def state(self, name):
         """Observable state of a resource through its public attributes."""
@@ -379,6 +392,9 @@ class SimWorld:
                 request = self._preq(res, op)
             data = (op.get("priority", 0), op.get("preempt", True))
             self.track(request, op["id"], op["res"], "request", name, data)
+            if op.get("ctx"):
+                yield from self._request_ctx(name, op, res, request)
+                return
             granted = False
             try:
                 granted, _ = yield from self._await(name, request, op["id"], op.get("patience"))
@@ -404,6 +420,29 @@ class SimWorld:
                 self.log(name, "release.done", op["res"], op["id"])
         else:
             raise ValueError(kind)
+
+    def _request_ctx(self, name, op, res, request):
+        """`with resource.request() as req:` - release / cancel happens in Request.__exit__."""
+        with request:
+            try:
+                granted, _ = yield from self._await(name, request, op["id"], op.get("patience"))
+                if granted:
+                    self.log(name, "request.done", op["res"], op["id"])
+                    if op.get("hold"):
+                        yield self.env.timeout(op["hold"])
+                        self.log(name, "hold-", op["res"], op["id"])
+            except SimInterrupt as err:
+                self.log(name, "interrupted", self.cause(err.cause), op["id"])
+            pending = not request.triggered
+        # __exit__ ran: a granted request was released, a pending one cancelled
+        if pending and self.on_event:
+            self.log(name, "cancel", op["res"], op["id"], bool(request.triggered))
+            self.on_event("cancel", op["res"], op["id"], None, name, None)
+        event = self.release_of.pop(id(request), None)
+        if event is not None:
+            self.track(event, op["id"] + ".rel", op["res"], "release", name, op["id"])
+            yield event
+            self.log(name, "release.done", op["res"], op["id"])
 
     @staticmethod
     def _preq(res, op):
